@@ -9,7 +9,10 @@ use crate::verif::atomic::AtomicUsize;
 #[cfg(may_verif)]
 use std::sync::atomic::Ordering;
 use std::sync::{Arc, Once};
+#[cfg(not(may_verif))]
 use std::thread;
+#[cfg(may_verif)]
+use crate::verif::thread;
 use std::time::Duration;
 
 use crate::config::config;
@@ -53,6 +56,8 @@ fn init_scheduler() {
         // timer function
         let timer_event_handler = |c: Arc<AtomicOption<CoroutineImpl>>| {
             // just re-push the co to the visit list
+            #[cfg(may_verif)]
+            crate::verif::label("timer.handler.take", 0);
             if let Some(mut co) = c.take() {
                 // set the timeout result for the coroutine
                 set_co_para(&mut co, io::Error::new(io::ErrorKind::TimedOut, "timeout"));
